@@ -68,6 +68,12 @@ impl Tiles {
     }
 }
 
+impl Tiles {
+    pub(crate) fn max_id(&self) -> Option<u32> {
+        self.0.iter().map(|tile| tile.id.0).max()
+    }
+}
+
 impl Index<usize> for Tiles {
     type Output = Tile;
 
